@@ -5,7 +5,7 @@
    smoother merges consecutive backward conditionals. *)
 From Coq Require Import List Arith.
 From PD Require Import Base.Field Base.Matrix Base.Solve Model.Gauss Spec.RTS
-  Proofs.GaussProofs Proofs.FilterProofs.
+  Proofs.GaussProofs Proofs.FilterProofs Proofs.SmootherSpec.
 Import ListNotations.
 
 Section C03.
@@ -51,9 +51,38 @@ Section C03.
       c_marg n n c (identity_conditional n c) rv
       = mkN (canon n c (n_mean rv)) (canon n n (n_cov rv)).
   Proof. exact c_marg_identity. Qed.
+
+  (* the same marginalisation IS the Rauch-Tung-Striebel step of the independent
+     specification (Spec/RTS.v: gain P_f A^T (A P_f A^T + Q)^-1 through the
+     certified inverse), for any symmetric filtering covariance *)
+  Theorem C03_backward_kernel_is_spec_rts_step :
+    forall n c (K : @cond F) (filt obs : @normal F) bw Pi,
+      (forall i, i < n -> vget (c_tl K) i <> f0) ->
+      (forall i, i < n -> vget (c_to K) i <> f0) ->
+      symmetric n (n_cov filt) ->
+      c_revert minv n n c K filt = Some (obs, bw) ->
+      minv n (n_cov obs) = Some Pi ->
+      forall sm,
+        let P := c_plain n n c K in
+        rts_step minv n c (c_A P) (c_b P) (c_Q P) filt sm = Some (c_marg n n c bw sm).
+  Proof. exact backward_kernel_is_spec_rts_step. Qed.
+
+  (* ... and therefore THE WHOLE BACKWARD PASS: for any number of steps, if bw_k
+     is the reversal of transition K_k with respect to the filtering marginal
+     f_(k-1) (what the smoother's predict stores), then marginalising the stored
+     conditionals from the terminal marginal down to t0 yields exactly
+     Spec.rts_pass on the filtering marginals and the plain transitions *)
+  Theorem C03_backward_pass_is_spec_rts_pass :
+    forall n c (filts : list (@normal F)) (Ks bws : list (@cond F)),
+      smoother_run n c filts Ks bws ->
+      rts_pass minv n c filts (map (c_plain n n c) Ks)
+      = Some (bw_chain n c bws (last filts (mkN [] []))).
+  Proof. exact backward_pass_is_spec_rts_pass. Qed.
 End C03.
 
 Print Assumptions C03_backward_kernel_gain_equation.
 Print Assumptions C03_backward_kernel_is_rts.
 Print Assumptions C03_fixedpoint_merge_is_composition.
 Print Assumptions C03_terminal_marginal_is_filtering.
+Print Assumptions C03_backward_kernel_is_spec_rts_step.
+Print Assumptions C03_backward_pass_is_spec_rts_pass.
